@@ -759,3 +759,153 @@ Section ClusterProofs.
     - exists t. apply (Hen _ _ Ht Hf). auto.
   Qed.
 End ClusterProofs.
+
+(* ====================================================================== *)
+(** * Witnesses *)
+
+(** The code before a4a8a1e (no re-check under the lock): two first writes, both
+    read [started = False], the first initiates and releases, the second takes
+    the lock and runs into [assert self.uploadId == ""]. *)
+Definition race_progs : list (list op) := [[OWrite 1]; [OWrite 2]].
+Definition race_sched : list nat := [0; 1; 0; 0; 0; 0; 0; 1; 1; 1]%nat.
+
+Lemma l_old_code_loser_fails :
+  exists progs sched lbs s,
+    progs_ok progs /\
+    l_run std_id false (l_init progs) sched = Some (lbs, s) /\
+    exists t th, nth_error (snd s) t = Some th /\ l_pc th = LpErr (EAssert 111).
+Proof.
+  exists race_progs, race_sched.
+  eexists. eexists. split; [repeat constructor|].
+  split; [vm_compute; reflexivity|].
+  exists 1%nat. eexists. split; vm_compute; reflexivity.
+Qed.
+
+(** the same two threads on the current code, same kind of interleaving *)
+Definition race_sched_fixed : list nat := [0; 1; 0; 0; 0; 0; 0; 0; 1; 1; 1; 0; 0; 0; 1; 1; 1]%nat.
+
+Lemma l_race_example :
+  exists lbs s, l_run std_id true (l_init race_progs) race_sched_fixed = Some (lbs, s) /\
+    l_all_done s /\ rev (l_log (fst s)) = [KCreate 1; KUpload 1 1; KUpload 2 1].
+Proof.
+  eexists. eexists. split; [vm_compute; reflexivity|]. split; [|vm_compute; reflexivity].
+  intros th H. vm_compute in H. intuition (subst; reflexivity).
+Qed.
+
+(** cluster path: a finalise that completed (and deleted the shared variable)
+    before another worker's first write lets that worker initiate again -- the
+    statement is therefore about executions in which the variable still exists
+    (in a dask graph finalise depends on every write) *)
+Definition late_progs : list (nat * list op) := [(0%nat, [OFinal 1]); (1%nat, [OWrite 1])].
+Definition late_sched : list nat := (repeat 0 15 ++ repeat 1 6)%nat.
+
+Lemma c_late_write_after_cleanup :
+  exists lbs s, c_run std_id (c_init late_progs) late_sched = Some (lbs, s) /\
+    c_deleted (fst s) = true /\ c_creates (fst s) = 2%nat.
+Proof. eexists. eexists. split; [vm_compute; reflexivity|]. split; reflexivity. Qed.
+
+Definition c_example_progs : list (nat * list op) :=
+  [(0%nat, [OWrite 1]); (1%nat, [OWrite 2]); (0%nat, [OWrite 3])].
+Definition c_example_sched : list nat :=
+  [0; 1; 2; 1; 0; 2; 1; 1; 1; 1; 1; 1; 1; 1; 0; 0; 0; 0; 2; 2; 2; 2; 1; 1; 1; 1; 0; 0; 0; 2; 2; 2]%nat.
+
+Lemma c_example :
+  exists lbs s, c_run std_id (c_init c_example_progs) c_example_sched = Some (lbs, s) /\
+    c_deleted (fst s) = false /\ c_all_done s /\ c_creates (fst s) = 1%nat.
+Proof.
+  eexists. eexists. split; [vm_compute; reflexivity|]. split; [reflexivity|].
+  split; [|reflexivity].
+  intros th H. vm_compute in H. intuition (subst; reflexivity).
+Qed.
+
+(* ====================================================================== *)
+(** * Statements used by Props/C18.v *)
+
+Lemma local_at_most_one_create (new_id : nat -> Z) :
+  (forall k, new_id k <> 0) ->
+  forall progs s, progs_ok progs -> l_reach new_id true progs s -> (l_creates (fst s) <= 1)%nat.
+Proof. intros Hn progs s Hp Hr. eapply l_creates_le_1, l_reach_inv; eauto. Qed.
+
+Lemma local_no_thread_fails (new_id : nat -> Z) :
+  (forall k, new_id k <> 0) ->
+  forall progs s, progs_ok progs -> l_reach new_id true progs s ->
+  forall t th, nth_error (snd s) t = Some th -> l_failed th = false.
+Proof. intros Hn progs s Hp Hr t th. eapply l_no_error, l_reach_inv; eauto. Qed.
+
+Lemma local_calls_under_one_id (new_id : nat -> Z) :
+  (forall k, new_id k <> 0) ->
+  forall progs s, progs_ok progs -> l_reach new_id true progs s ->
+  count_creates (l_log (fst s)) = l_creates (fst s) /\
+  forall c, In c (l_log (fst s)) ->
+    call_id c = new_id 0%nat /\ In (KCreate (new_id 0%nat)) (l_log (fst s)).
+Proof. intros Hn progs s Hp Hr. eapply l_calls_ok, l_reach_inv; eauto. Qed.
+
+Lemma local_finished_run (new_id : nat -> Z) :
+  (forall k, new_id k <> 0) ->
+  forall progs s, progs_ok progs -> l_reach new_id true progs s -> l_all_done s ->
+  (forall k, count_calls k (l_log (fst s)) = count_ops k (concat progs)) /\
+  (concat progs <> [] -> l_creates (fst s) = 1%nat).
+Proof.
+  intros Hn progs s Hp Hr Hd. pose proof (l_reach_inv _ Hn _ _ Hp Hr) as Hi. split.
+  - eapply l_all_done_counts; eauto.
+  - eapply l_all_done_one_create; eauto.
+Qed.
+
+Lemma local_no_deadlock (new_id : nat -> Z) :
+  (forall k, new_id k <> 0) ->
+  forall progs s, progs_ok progs -> l_reach new_id true progs s ->
+  forall t th, nth_error (snd s) t = Some th -> l_finished th = false ->
+  exists t' lb s', l_step new_id true s t' = Some (lb, s').
+Proof. intros Hn progs s Hp Hr t th. eapply l_progress, l_reach_inv; eauto. Qed.
+
+Lemma local_schedules_reach (new_id : nat -> Z) progs sched lbs s :
+  l_run new_id true (l_init progs) sched = Some (lbs, s) -> l_reach new_id true progs s.
+Proof. apply l_run_reach. constructor. Qed.
+
+Lemma cluster_at_most_one_create (new_id : nat -> Z) :
+  (forall k, new_id k <> 0) ->
+  forall progs s, cprogs_ok progs -> c_reach new_id progs s -> c_deleted (fst s) = false ->
+  (c_creates (fst s) <= 1)%nat.
+Proof. intros Hn progs s Hp Hr Hd. eapply c_creates_le_1, c_reach_inv; eauto. Qed.
+
+Lemma cluster_no_thread_fails (new_id : nat -> Z) :
+  (forall k, new_id k <> 0) ->
+  forall progs s, cprogs_ok progs -> c_reach new_id progs s -> c_deleted (fst s) = false ->
+  forall t th, nth_error (snd s) t = Some th -> c_failed th = false.
+Proof. intros Hn progs s Hp Hr Hd t th. eapply c_no_error, c_reach_inv; eauto. Qed.
+
+Lemma cluster_calls_under_one_id (new_id : nat -> Z) :
+  (forall k, new_id k <> 0) ->
+  forall progs s, cprogs_ok progs -> c_reach new_id progs s -> c_deleted (fst s) = false ->
+  count_creates (c_log (fst s)) = c_creates (fst s) /\
+  (forall c, In c (c_log (fst s)) ->
+    call_id c = new_id 0%nat /\ In (KCreate (new_id 0%nat)) (c_log (fst s))) /\
+  (forall w, c_uids (fst s) w = 0 \/ c_uids (fst s) w = new_id 0%nat).
+Proof.
+  intros Hn progs s Hp Hr Hd. pose proof (c_reach_inv _ Hn _ _ Hp Hr Hd) as Hi.
+  destruct (c_calls_ok _ _ _ Hi) as (A & B). split; [exact A|]. split; [exact B|].
+  intros w. eapply c_worker_ids; eauto.
+Qed.
+
+Lemma cluster_finished_run (new_id : nat -> Z) :
+  (forall k, new_id k <> 0) ->
+  forall progs s, cprogs_ok progs -> c_reach new_id progs s -> c_deleted (fst s) = false ->
+  c_all_done s ->
+  (forall k, count_calls k (c_log (fst s)) = count_ops k (concat (map snd progs))) /\
+  (concat (map snd progs) <> [] -> c_creates (fst s) = 1%nat).
+Proof.
+  intros Hn progs s Hp Hr Hdel Hd. pose proof (c_reach_inv _ Hn _ _ Hp Hr Hdel) as Hi. split.
+  - eapply c_all_done_counts; eauto.
+  - eapply c_all_done_one_create; eauto.
+Qed.
+
+Lemma cluster_no_deadlock (new_id : nat -> Z) :
+  (forall k, new_id k <> 0) ->
+  forall progs s, cprogs_ok progs -> c_reach new_id progs s -> c_deleted (fst s) = false ->
+  forall t th, nth_error (snd s) t = Some th -> c_finished th = false ->
+  exists t' lb s', c_step new_id s t' = Some (lb, s').
+Proof. intros Hn progs s Hp Hr Hd t th. eapply c_progress, c_reach_inv; eauto. Qed.
+
+Lemma cluster_schedules_reach (new_id : nat -> Z) progs sched lbs s :
+  c_run new_id (c_init progs) sched = Some (lbs, s) -> c_reach new_id progs s.
+Proof. apply c_run_reach. constructor. Qed.
